@@ -104,3 +104,53 @@ def handler_reraises(handler: ast.ExceptHandler) -> bool:
         return False
 
     return block(handler.body)
+
+
+def check_incoming_model(ctx: Ctx, rep: Any, rule: str, mpm_identifier: int, want_model: int) -> None:
+    """
+    The security model that vets an incoming message is the one the message-processing model installed for
+    itself (a constant identifier), never one chosen by a field of the received message: every
+    ``<x>.process_incoming_message(..)`` in ``decode`` is called on ``self.security_model`` and every
+    ``security.create(<id>)`` of the class passes the constant *want_model*.
+    """
+    from ..engine.patterns import cfg_node_of
+    from ..engine.resolve import NotConstant
+    from .walkmodel import assigned_value, reaching_defs
+
+    cls = mpm_class(ctx, mpm_identifier)
+    dec = own_method(ctx, cls, "decode")
+    cfg = ctx.cfg(dec)
+    defs = ctx.defs(dec)
+    calls = [n for n in own_nodes(dec.node) if isinstance(n, ast.Call) and isinstance(n.func, ast.Attribute) and n.func.attr == "process_incoming_message"]
+    if not calls:
+        rep.undecided(rule, dec.site(), f"{cls.name}.decode hands the message to a security model", "no process_incoming_message call")
+        return
+
+    def is_own_model(expr: Optional[ast.AST]) -> bool:
+        return expr is not None and norm(strip_casts(expr)) == "self.security_model"
+
+    for call in calls:
+        recv = strip_casts(call.func.value)
+        ok = is_own_model(recv)
+        detail = ""
+        if not ok and isinstance(recv, ast.Name):
+            at = cfg_node_of(cfg, call)
+            rd = reaching_defs(cfg, recv.id, at) if at is not None else []
+            vals = [assigned_value(d) for d in rd]
+            ok = bool(rd) and all(is_own_model(v) for v in vals)
+            detail = f"`{recv.id}` may be: {[norm(v)[:60] if v is not None else '?' for v in vals]}"
+        elif not ok:
+            detail = f"receiver `{norm(recv)[:60]}`"
+        rep.check(ok, rule, dec.site(call), f"{cls.name}.decode: the incoming message is vetted by the model's own security model (self.security_model) on every path", detail, key=f"{dec.key}|foreign-security-model")
+    for meth in cls.methods.values():
+        mdefs = ctx.defs(meth)
+        for n in own_nodes(meth.node):
+            if isinstance(n, ast.Call) and ctx.r.call_resolves_to(meth, n, "puresnmp.plugins.security:create") and n.args:
+                arg = mdefs.expand(n.args[0])
+                try:
+                    ident = ctx.r.const(meth.module, arg, meth.cls)
+                except NotConstant:
+                    ident = None
+                except Exception:  # pylint: disable=broad-except
+                    ident = None
+                rep.check(ident == want_model, rule, meth.site(n), f"{cls.name}.{meth.name}: the security model installed is the constant model {want_model}", f"identifier `{norm(n.args[0])}` = {ident!r}", key=f"{meth.key}|security-model-id")
